@@ -440,4 +440,25 @@ theorem mapDimensionsToSource_eq_coords (shape : Shape ν) (names : List ν) (id
 theorem coords_length (shape : Shape ν) (names : List ν) (idx : List Nat) :
     (coords shape names idx).length = shape.length := by simp [coords]
 
+/-- the checked offset of a valid tensor (lemma form of `C01.offset_eq_rowMajor`) -/
+theorem offset_of_tryFrom (shape : Shape ν) (data : List α) (t : Tensor ν α)
+    (ht : Tensor.tryFrom shape data = some t) (idx : List Nat) (hlen : idx.length = shape.length) :
+    t.offset idx =
+      if inBounds (shape.map (·.2)) idx then some (ravel (shape.map (·.2)) idx) else none := by
+  obtain ⟨_, rfl⟩ := (tryFrom_eq_some_iff shape data t).1 ht
+  simp only [Tensor.offset, getIndexDirect]
+  rw [getIndexDirectGo_eq shape idx 0 hlen]
+  simp
+
+/-- bounds of the source-order coordinates = bounds of the tuple against the reported shape -/
+theorem inBounds_coords (shape : Shape ν) (names : List ν) (idx : List Nat)
+    (hnd : (shape.map (·.1)).Nodup) (hp : names.Perm (shape.map (·.1)))
+    (hlen : idx.length = names.length) :
+    inBounds (shape.map (·.2)) (coords shape names idx) =
+      inBounds ((shapeFor shape names).map (·.2)) idx := by
+  rw [← lookupOffset_isSome_iff shape names idx hnd hp hlen]
+  unfold lookupOffset
+  simp only
+  split <;> simp_all
+
 end EasyMl
